@@ -324,6 +324,9 @@ func (f *Frame[K]) UnmarshalJSON(data []byte) error {
 	if err := json.Unmarshal(data, &frame); err != nil {
 		return err
 	}
+	if len(frame.Keys) != len(frame.Series) {
+		return fmt.Errorf("frame has %d keys but %d series", len(frame.Keys), len(frame.Series))
+	}
 	f.keys = frame.Keys
 	f.series = frame.Series
 	return nil
@@ -366,10 +369,15 @@ func (f Frame[K]) EncodeMsgpack(enc *msgpack.Encoder) error {
 // DecodeMsgpack can continue using serializableFrame
 func (f *Frame[K]) DecodeMsgpack(dec *msgpack.Decoder) error {
 	var frame serializableFrame[K]
-	err := dec.Decode(&frame)
+	if err := dec.Decode(&frame); err != nil {
+		return err
+	}
+	if len(frame.Keys) != len(frame.Series) {
+		return fmt.Errorf("frame has %d keys but %d series", len(frame.Keys), len(frame.Series))
+	}
 	f.keys = frame.Keys
 	f.series = frame.Series
-	return err
+	return nil
 }
 
 // Get gets all series in the frame matching the given key.
